@@ -46,7 +46,10 @@ func (a *AtomicBool) Store(v bool) { a.c.point(); a.v.Store(v) }
 func (a *AtomicBool) Swap(v bool) bool { a.c.point(); return a.v.Swap(v) }
 
 //go:norace
-func (a *AtomicBool) CompareAndSwap(old, new bool) bool { a.c.point(); return a.v.CompareAndSwap(old, new) }
+func (a *AtomicBool) CompareAndSwap(old, new bool) bool {
+	a.c.point()
+	return a.v.CompareAndSwap(old, new)
+}
 
 // AtomicInt32 replaces sync/atomic.Int32.
 type AtomicInt32 struct {
@@ -67,7 +70,10 @@ func (a *AtomicInt32) Add(d int32) int32 { a.c.point(); return a.v.Add(d) }
 func (a *AtomicInt32) Swap(v int32) int32 { a.c.point(); return a.v.Swap(v) }
 
 //go:norace
-func (a *AtomicInt32) CompareAndSwap(old, new int32) bool { a.c.point(); return a.v.CompareAndSwap(old, new) }
+func (a *AtomicInt32) CompareAndSwap(old, new int32) bool {
+	a.c.point()
+	return a.v.CompareAndSwap(old, new)
+}
 
 // AtomicInt64 replaces sync/atomic.Int64.
 type AtomicInt64 struct {
@@ -88,7 +94,10 @@ func (a *AtomicInt64) Add(d int64) int64 { a.c.point(); return a.v.Add(d) }
 func (a *AtomicInt64) Swap(v int64) int64 { a.c.point(); return a.v.Swap(v) }
 
 //go:norace
-func (a *AtomicInt64) CompareAndSwap(old, new int64) bool { a.c.point(); return a.v.CompareAndSwap(old, new) }
+func (a *AtomicInt64) CompareAndSwap(old, new int64) bool {
+	a.c.point()
+	return a.v.CompareAndSwap(old, new)
+}
 
 // AtomicUint32 replaces sync/atomic.Uint32.
 type AtomicUint32 struct {
@@ -227,10 +236,16 @@ func AtomicCompareAndSwapInt64(p *int64, old, new int64) bool {
 }
 
 //go:norace
-func AtomicLoadUint32(p *uint32) uint32 { atomicPointAt(unsafe.Pointer(p)); return atomic.LoadUint32(p) }
+func AtomicLoadUint32(p *uint32) uint32 {
+	atomicPointAt(unsafe.Pointer(p))
+	return atomic.LoadUint32(p)
+}
 
 //go:norace
-func AtomicStoreUint32(p *uint32, v uint32) { atomicPointAt(unsafe.Pointer(p)); atomic.StoreUint32(p, v) }
+func AtomicStoreUint32(p *uint32, v uint32) {
+	atomicPointAt(unsafe.Pointer(p))
+	atomic.StoreUint32(p, v)
+}
 
 //go:norace
 func AtomicAddUint32(p *uint32, d uint32) uint32 {
@@ -251,10 +266,16 @@ func AtomicCompareAndSwapUint32(p *uint32, old, new uint32) bool {
 }
 
 //go:norace
-func AtomicLoadUint64(p *uint64) uint64 { atomicPointAt(unsafe.Pointer(p)); return atomic.LoadUint64(p) }
+func AtomicLoadUint64(p *uint64) uint64 {
+	atomicPointAt(unsafe.Pointer(p))
+	return atomic.LoadUint64(p)
+}
 
 //go:norace
-func AtomicStoreUint64(p *uint64, v uint64) { atomicPointAt(unsafe.Pointer(p)); atomic.StoreUint64(p, v) }
+func AtomicStoreUint64(p *uint64, v uint64) {
+	atomicPointAt(unsafe.Pointer(p))
+	atomic.StoreUint64(p, v)
+}
 
 //go:norace
 func AtomicAddUint64(p *uint64, d uint64) uint64 {
